@@ -7,11 +7,11 @@ From JV Require Import Lib.Base Gen.C19PathFlags Model.C19PathMode Model.C19Cwd 
   Spec.C19Guard.
 
 Inductive mobs := MAccept (rel ab : str) | MPathErr | MValErr | MOsErr | MOther.
-Inductive cobs := COk (items : list item) | CFail | COther.
+Inductive cobs := COk (items : list item) | CFail | COsErr | COther.
 
 Inductive case :=
 | CMode (mode : str) (f : facts) (home cwd given : str) (obs : mobs)
-| CCwd (files : list str) (cwd0 top : str) (body : list node) (cwd1 : str) (cpd1 : option str) (obs : cobs).
+| CCwd (files dirs : list str) (links : list (str * str)) (cwd0 top : str) (body : list node) (cwd1 : str) (cpd1 : option str) (obs : cobs).
 
 Definition item_eqb (a b : item) : bool :=
   match a, b with
@@ -22,6 +22,7 @@ Definition res_obs_eqb (r : res (list item)) (o : cobs) : bool :=
   match r, o with
   | Ok xs, COk ys => list_eqb item_eqb xs ys
   | Err, CFail => true
+  | ErrOs, COsErr => true
   | _, _ => false
   end.
 
@@ -56,22 +57,23 @@ Definition judge_mode (fxs : fixes) (mode : str) (f : facts) (home cwd given : s
   let k' := if negb (N.eqb k 0) && negb vm && negb vs then 99%N else k in
   {| v_model := vm; v_class := k'; v_spec := vs |}.
 
-Definition judge_cwd (fxs : fixes) (files : list str) (cwd0 top : str) (body : list node)
+Definition judge_cwd (fxs : fixes) (files dirs : list str) (links : list (str * str)) (cwd0 top : str) (body : list node)
                      (cwd1 : str) (cpd1 : option str) (obs : cobs) : verdict :=
   let s0 := {| cwd := cwd0; cpd := None |} in
-  let '(s1, r) := run_top fxs files s0 top body in
+  let dir_ok := fun d => mem_str d dirs in     (* os.chdir(d) succeeds: d is one of the (physical) directories *)
+  let '(s1, r) := run_top fxs files links dir_ok s0 top body in
   let vm := is_abs cwd0 && str_eqb (cwd s1) cwd1 && option_eqb str_eqb (cpd s1) cpd1 && res_obs_eqb r obs in
   let vs := str_eqb cwd1 cwd0 && option_eqb str_eqb None cpd1
-            && res_obs_eqb (spec_top files cwd0 top body) obs in
-  (* guard = hypothesis of C19_relative_follows_config; class 4 = list-file-relative *)
-  let k := if tree_guard files (fx_lf fxs) cwd0 top body then 0%N else 4%N in
+            && res_obs_eqb (spec_top files links cwd0 top body) obs in
+  (* guard = hypothesis of C19_relative_follows_config; class 4 = list-file-relative, 5 = chdir-lexical-dotdot *)
+  let k := tree_class files links (fx_lf fxs) (fx_rp fxs) dir_ok cwd0 top body in
   let k' := if negb (N.eqb k 0) && negb vm && negb vs then 99%N else k in
   {| v_model := vm; v_class := k'; v_spec := vs |}.
 
 Definition judge1_fx (fxs : fixes) (c : case) : verdict :=
   match c with
   | CMode mode f home cwd given obs => judge_mode fxs mode f home cwd given obs
-  | CCwd files cwd0 top body cwd1 cpd1 obs => judge_cwd fxs files cwd0 top body cwd1 cpd1 obs
+  | CCwd files dirs links cwd0 top body cwd1 cpd1 obs => judge_cwd fxs files dirs links cwd0 top body cwd1 cpd1 obs
   end.
 
 Definition judge_fx (fxs : fixes) (cs : list case) := judge_all (judge1_fx fxs) cs.
